@@ -100,6 +100,32 @@ class Engine:
             if r == z3.unsat:
                 return r, None
             self.unknowns -= 1
+        else:
+            # the rewriter alone often decides equalities between two spellings of a product
+            try:
+                simp = [z3.simplify(c, som=True, pull_cheap_ite=True) for c in extra]
+            except z3.Z3Exception:
+                simp = list(extra)
+            if any(z3.is_false(c) for c in simp):
+                self.queries += 1
+                self.rewriter_unsat = getattr(self, "rewriter_unsat", 0) + 1
+                return z3.unsat, None
+            # products of symbolic factors: try the query with multiplication abstracted to an
+            # uninterpreted function first -- equal factors give equal products by congruence,
+            # which is all most assertions need; only `unsat` is conclusive there
+            memo = {}
+            s = z3.Solver()
+            s.set("timeout", min(self.timeout_ms, 20000))
+            s.add(*[abstract_mul(c, memo) for c in self.pc])
+            s.add(*[abstract_mul(c, memo) for c in extra])
+            s.add(*memo.get("comm", []))
+            t = time.time()
+            self.queries += 1
+            r = s.check()
+            self.solver_time += time.time() - t
+            if r == z3.unsat:
+                self.abstract_unsat = getattr(self, "abstract_unsat", 0) + 1
+                return r, None
         s = z3.Solver()
         s.set("timeout", self.timeout_ms)
         s.add(*self.pc)
@@ -378,6 +404,48 @@ def has_symbolic_mul(term):
                     return True
             stack.extend(t.children())
     return False
+
+
+_MUL_UF = {}
+
+
+def abstract_mul(term, memo=None):
+    """Copy of the term with every product of two non-constant factors replaced by an
+    uninterpreted function of the (id-ordered) factors.  The abstraction only forgets facts about
+    multiplication, so `unsat` for the abstracted query implies `unsat` for the real one."""
+    memo = {} if memo is None else memo
+
+    def go(t):
+        i = t.get_id()
+        hit = memo.get(i)
+        if hit is not None:
+            return hit[1]
+        if not z3.is_app(t) or t.num_args() == 0:
+            r = t
+        else:
+            kids = [go(c) for c in t.children()]
+            if t.decl().kind() == z3.Z3_OP_BMUL:
+                consts = [c for c in kids if z3.is_bv_value(c)]
+                rest = sorted((c for c in kids if not z3.is_bv_value(c)), key=lambda c: c.get_id())
+                if len(rest) >= 2:
+                    w = t.size()
+                    f = _MUL_UF.get(w)
+                    if f is None:
+                        f = _MUL_UF[w] = z3.Function("sx_mul_%d" % w, z3.BitVecSort(w), z3.BitVecSort(w), z3.BitVecSort(w))
+                    r = rest[0]
+                    for c in rest[1:]:
+                        memo.setdefault("comm", []).append(f(r, c) == f(c, r))   # ground commutativity instance
+                        r = f(r, c)
+                    for c in consts:
+                        r = c * r
+                else:
+                    r = t.decl()(*kids)
+            else:
+                r = t.decl()(*kids)
+        memo[i] = (t, r)   # the original term is kept alive so that its id is not reused
+        return r
+
+    return go(term)
 
 
 def vars_of(term):
@@ -818,8 +886,22 @@ class SInt:
             r = z3.If(z3.UGE(a, z3.BitVecVal(1 << k, W)), z3.BitVecVal(k + 1, W), r)
         return SInt(z3.simplify(r), 0, 64)
 
-    def to_bytes(self, *a, **k):
-        raise Unmodelled("SInt.to_bytes")
+    def to_bytes(self, length=1, byteorder="big", *, signed=False):
+        from .values import mkbytes
+
+        if isinstance(length, SInt):
+            length = concretize(length)
+        if byteorder not in ("little", "big") or length > 7:
+            raise Unmodelled("SInt.to_bytes(%r, %r)" % (length, byteorder))
+        lo, hi = (-(1 << (8 * length - 1)), (1 << (8 * length - 1)) - 1) if signed else (0, (1 << (8 * length)) - 1)
+        al, ah = _iv(self)
+        if al is None or al < lo or ah > hi:
+            if not bool(SBool(z3.And(self.t >= lo, self.t <= hi))):
+                raise OverflowError("int too big to convert" if not signed else "int too big to convert")
+        bs = [SInt(z3.simplify((self.t >> (8 * k)) & 0xFF), 0, 255) for k in range(length)]
+        if byteorder == "big":
+            bs.reverse()
+        return mkbytes(bs)
 
     def __getattr__(self, name):
         if hasattr(int, name):
